@@ -23,10 +23,14 @@ META = dict(
     explanation="For every ordering of up to 3 visits (ages symbolic and distinct), every float64 value incl. NaN and entirely-NaN features, the real "
     "_get_feature_values returns: the row at the greatest age (last); per feature the value at the greatest age with a non-NaN value, NaN iff all NaN "
     "(last-known); numpy's nan-max / nan-mean along visits (max / mean: the delegation and the axis are what is checked); the constant model returns that "
-    "vector at every requested age.",
-    bounds="visits <= 3, features <= 2, requested ages <= 3",
-    outside="the LME benchmark (statsmodels MixedLM / numpy.linalg): library code, not symbolically executable - not claimed",
-    assumptions=["np.nanmax / np.nanmean semantics are modelled in the harness (trusted specification of numpy)", "ages pairwise distinct"],
+    "vector at every requested age. LME benchmark: the real numpy code of _get_individual_random_effects_and_residuals runs on object arrays of symbolic reals "
+    "(every missing pattern enumerated): the returned random effects solve the normal equations (Z'Z + Psi^-1) b = Z'r over the observed visits - i.e. they are the "
+    "conditional means given the variance components - and the residuals are y - X beta - Z b on the observed visits, in order.",
+    bounds="visits <= 3, features <= 2, requested ages <= 3; LME: visits <= 3 (4 thorough), every missing pattern with >= 1 observed visit, with and without random slope",
+    outside="agreement of the fitted variance components / random effects with statsmodels MixedLM (library code, not symbolically executable); LME trajectories",
+    assumptions=["np.nanmax / np.nanmean semantics are modelled in the harness (trusted specification of numpy)", "ages pairwise distinct",
+                 "LME: reals; a missing observation is an unconstrained real flagged missing (np.isnan stub answers from the flag; NaN poisoning through arithmetic is not modelled); "
+                 "np.linalg.inv(A) is a fresh matrix under A G = G A = I with det A > 0 proved separately; variance components symmetric positive definite"],
 )
 
 
@@ -184,6 +188,171 @@ print(out); sys.exit(0 if (tuple(out.shape) == (1, {n_ages}, {d}) and torch.equa
     return guarded(PROP, task, body)
 
 
+# ------------------------------------------------------------------------------------------------------------------
+# LME benchmark: the personalized random effects are the conditional means given the variance components.
+# The real numpy code of LMEPersonalizeAlgorithm._get_individual_random_effects_and_residuals runs on object arrays whose
+# elements are symbolic real scalars (numpy applies the Python operators elementwise; statsmodels' add_constant runs as is).
+# ------------------------------------------------------------------------------------------------------------------
+class _Missing(st.SymScalar):
+    """a missing observation: np.isnan (stub) answers True for it; arithmetic on it yields an unconstrained real, so any
+    dependence of a result on it is a counterexample (NaN poisoning through arithmetic such as 0 * NaN is not modelled)"""
+
+
+class _NumpyStubs:
+    """np.isnan / np.linalg.inv have no object-dtype loops: isnan answers from the (concrete) missing pattern; inv returns a
+    fresh symbolic matrix G under its contract  A G = G A = I, and records det A so that invertibility is proved separately"""
+
+    def __enter__(self):
+        self.saved = (np.isnan, np.linalg.inv)
+        self.dets = []
+        o_isnan, o_inv = self.saved
+        stubs = self
+
+        def isnan(x, *a, **k):
+            if isinstance(x, np.ndarray) and x.dtype == object:
+                return np.array([isinstance(v, _Missing) or (isinstance(v, float) and v != v) for v in x.reshape(-1)], dtype=bool).reshape(x.shape)
+            return o_isnan(x, *a, **k)
+
+        def inv(A):
+            if isinstance(A, np.ndarray) and A.dtype == object:
+                k = A.shape[0]
+                if A.shape not in ((1, 1), (2, 2)):
+                    raise st.Unsupported(f"inverse of a symbolic {A.shape} matrix")
+                tt = lambda v: v.term if isinstance(v, st.SymScalar) else T.real_val(v)
+                At = [[tt(A[i, j]) for j in range(k)] for i in range(k)]
+                n_ = len(stubs.dets)
+                Gt = [[z3.Real(f"inv{n_}_{i}{j}") for j in range(k)] for i in range(k)]
+                for i in range(k):
+                    for j in range(k):
+                        e = T.real_val(1 if i == j else 0)
+                        T.assume(sum((At[i][l] * Gt[l][j] for l in range(k)), T.real_val(0)) == e)
+                        T.assume(sum((Gt[i][l] * At[l][j] for l in range(k)), T.real_val(0)) == e)
+                stubs.dets.append(At[0][0] if k == 1 else At[0][0] * At[1][1] - At[0][1] * At[1][0])
+                return np.array([[st.SymScalar(Gt[i][j], torch.float64) for j in range(k)] for i in range(k)], dtype=object)
+            return o_inv(A)
+
+        np.isnan, np.linalg.inv = isnan, inv
+        return self
+
+    def __exit__(self, *a):
+        np.isnan, np.linalg.inv = self.saved
+
+
+def lme_task(n_vis, slope):
+    """every missing pattern of n_vis visits (at least one observed), symbolic ages / values / normalisation / fixed effects / variance components"""
+    from leaspy.algo.personalize.lme_personalize import LMEPersonalizeAlgorithm as LME
+
+    task = f"lme-random-effects[visits={n_vis},random_slope={slope}]"
+
+    def body():
+        rec = Recorder(PROP, task, [LME._get_individual_random_effects_and_residuals.__func__, LME._generic_get_random_effects, LME._remove_nans])
+        rec.stubs += ["np.isnan on the payload -> the enumerated missing pattern", "np.linalg.inv(A) -> fresh G with A G = G A = I (1x1, 2x2); det A > 0 proved as a side obligation"]
+        f64 = torch.float64
+        for pattern in itertools.product([True, False], repeat=n_vis):
+            if not any(pattern):
+                continue
+            st.new_context("R")
+            T.ctx().congruence = False
+            S = lambda nm: st.SymScalar(z3.Real(nm), f64)
+            t = [z3.Real(f"t{i}") for i in range(n_vis)]
+            y = [z3.Real(f"y{i}") for i in range(n_vis)]
+            mu, sd, b0, b1, a, c_, d = (z3.Real(x) for x in ("mu", "sd", "b0", "b1", "psi_a", "psi_c", "psi_d"))
+            T.assume(sd > 0)
+            # inverse (unscaled) covariance of the random effects: symmetric positive definite
+            T.assume(a > 0)
+            if slope:
+                T.assume(z3.And(d > 0, a * d - c_ * c_ > 0))
+            times = np.array([st.SymScalar(x, f64) for x in t], dtype=object)
+            values = np.array([[st.SymScalar(y[i], f64) if pattern[i] else _Missing(z3.Real(f"missing{i}"), f64)] for i in range(n_vis)], dtype=object)
+
+            class M:
+                with_random_slope_age = slope
+                parameters = {
+                    "ages_mean": st.SymScalar(mu, f64), "ages_std": st.SymScalar(sd, f64),
+                    "fe_params": np.array([st.SymScalar(b0, f64), st.SymScalar(b1, f64)], dtype=object),
+                    "cov_re_unscaled_inv": np.array([[st.SymScalar(a, f64), st.SymScalar(c_, f64)], [st.SymScalar(c_, f64), st.SymScalar(d, f64)]], dtype=object) if slope else np.array([[st.SymScalar(a, f64)]], dtype=object),
+                }
+
+            with _NumpyStubs() as stubs:
+                re_d, resid = LME._get_individual_random_effects_and_residuals(M, times, values)
+            obs = [i for i in range(n_vis) if pattern[i]]
+            # generalisation: the normalised ages (t_i - mean) / std, as the code built them, are replaced by free variables g_i
+            # (the claim for arbitrary g_i implies the claim for these particular ones; fewer non-linear atoms for the solver)
+            age_code = {i: ((times[i] - M.parameters["ages_mean"]) / M.parameters["ages_std"]).term for i in range(n_vis)}
+            g = {i: z3.Real(f"g{i}") for i in range(n_vis)}
+            gen = lambda e: z3.substitute(e, *[(age_code[i], g[i]) for i in range(n_vis)])
+            term = lambda v: gen(v.term) if isinstance(v, st.SymScalar) else T.real_val(v)
+            T.ctx().assumptions[:] = [gen(x) for x in T.ctx().assumptions]
+            age = {i: g[i] for i in obs}
+            r = {i: y[i] - (b0 + b1 * age[i]) for i in obs}
+
+            def rp(model, pattern=pattern):
+                val = lambda x: float(model_value(model, x))
+                return f"""
+import numpy as np
+from leaspy.algo.personalize.lme_personalize import LMEPersonalizeAlgorithm as LME
+nan = float('nan')
+pattern = {list(pattern)!r}
+t = np.array({[0] * n_vis!r}, dtype=float); y = np.array({[0] * n_vis!r}, dtype=float)
+t[:] = {[val(x) for x in t]!r}; y[:] = {[val(x) for x in y]!r}
+y[~np.array(pattern)] = nan
+class M:
+    with_random_slope_age = {slope!r}
+    parameters = dict(ages_mean={val(mu)!r}, ages_std={val(sd)!r}, fe_params=np.array([{val(b0)!r}, {val(b1)!r}]),
+                      cov_re_unscaled_inv=np.array({([[val(a), val(c_)], [val(c_), val(d)]] if slope else [[val(a)]])!r}))
+re, res = LME._get_individual_random_effects_and_residuals(M, t, y.reshape(-1, 1))
+o = np.array(pattern)
+age = (t[o] - M.parameters['ages_mean']) / M.parameters['ages_std']
+Z = np.column_stack([np.ones(o.sum()), age]) if {slope!r} else np.ones((o.sum(), 1))
+r = y[o] - (M.parameters['fe_params'][0] + M.parameters['fe_params'][1] * age)
+b = np.linalg.solve(Z.T @ Z + M.parameters['cov_re_unscaled_inv'], Z.T @ r)   # conditional mean of the random effects over the OBSERVED visits
+got = np.array([re['random_intercept']] + ([re['random_slope_age']] if {slope!r} else []), dtype=float)
+ok = np.allclose(got, b, rtol=1e-6, atol=1e-9) and np.shape(res) == (o.sum(),) and np.allclose(np.asarray(res, dtype=float), r - Z @ b, rtol=1e-6, atol=1e-9)
+print('pattern', pattern, 'random effects', got, 'conditional mean', b); sys.exit(0 if ok else 1)
+"""
+
+            key = "C20:lme-conditional-mean"
+            want = ["random_intercept"] + (["random_slope_age"] if slope else [])
+            rec.obligations += 1
+            if sorted(re_d) == sorted(want) and np.shape(resid) == (len(obs),):
+                rec.discharged += 1
+            else:
+                rec.violation_from_script(f"layout{list(pattern)}", key, rp(_Ones()), f"random effects {sorted(re_d)} / residuals of shape {np.shape(resid)} for {len(obs)} observed visits")
+                continue
+            # the matrices handed to np.linalg.inv are invertible (the stub's contract is only assumed for those)
+            for n_, det in enumerate(stubs.dets):
+                rec.prove(f"invertible{list(pattern)}#{n_}", gen(det) > 0, replay=rp, key=key, timeout_ms=120000, what="a matrix inverted by the code is not positive definite for positive definite variance components")
+            u = term(re_d["random_intercept"])
+            w = term(re_d["random_slope_age"]) if slope else None
+            n_o = T.real_val(len(obs))
+            if slope:
+                s1 = sum((age[i] for i in obs), T.real_val(0))
+                s2 = sum((age[i] * age[i] for i in obs), T.real_val(0))
+                eq1 = (n_o + a) * u + (s1 + c_) * w == sum((r[i] for i in obs), T.real_val(0))
+                eq2 = (s1 + c_) * u + (s2 + d) * w == sum((age[i] * r[i] for i in obs), T.real_val(0))
+                rec.prove(f"normal-equations{list(pattern)}", z3.And(eq1, eq2), replay=rp, key=key, timeout_ms=120000, tactics=("default", "qfnra-nlsat"),
+                          what="the random effects do not solve (Z'Z + Psi^-1) b = Z'r over the observed visits (they are not the conditional means)")
+            else:
+                rec.prove(f"normal-equation{list(pattern)}", (n_o + a) * u == sum((r[i] for i in obs), T.real_val(0)), replay=rp, key=key, timeout_ms=120000,
+                          what="the random intercept is not sum(residuals) / (n_observed + psi^-1)")
+            for k_, i in enumerate(obs):
+                exp = r[i] - u - (w * age[i] if slope else 0)
+                rec.prove(f"residual{list(pattern)}[{k_}]", term(np.asarray(resid, dtype=object).reshape(-1)[k_]) == exp, replay=rp, key=key, timeout_ms=120000,
+                          what="returned residuals are not y - X beta - Z b on the observed visits, in visit order")
+            if rec.paths == 0:
+                rec.twin("ctx")
+            rec.end_path()
+        rec.sample({"visits": n_vis, "random_slope": slope, "missing patterns": 2 ** n_vis - 1})
+        return rec.result()
+
+    return guarded(PROP, task, body)
+
+
+class _Ones:
+    def eval(self, t, model_completion=True):
+        return z3.RealVal(1)
+
+
 def tasks(tier, seed=0):
     ts = []
     for p in ("last", "last-known", "max", "mean"):
@@ -193,4 +362,9 @@ def tasks(tier, seed=0):
             ts.append(("prediction_task", dict(ptype=p, n=2, d=2)))
             ts.append(("prediction_task", dict(ptype=p, n=4, d=1)))
     ts.append(("trajectory_task", dict(n_ages=3, d=2)))
+    for slope in (True, False):
+        ts.append(("lme_task", dict(n_vis=2, slope=slope)))
+        ts.append(("lme_task", dict(n_vis=3, slope=slope)))
+        if tier == "thorough":
+            ts.append(("lme_task", dict(n_vis=4, slope=slope)))
     return ts
